@@ -160,7 +160,21 @@ def run_C14(tier, seed):
     res = [stages.transcript_stage("C14", tier, omits=(), extra_negs=[("no_witness_rekey", stages.transcript_cfg(rekey=False), "Hedged"),
                                                                     ("rng_not_rebuilt", stages.transcript_cfg(rebuild=False), "SeesAll")])]
     # pairs of runs under faulty external RNGs: identical runs reproduce, runs differing in one input share no RNG-derived nonce
-    sc, _ = stages.pick_scenarios("hedge", tier, seed, lambda s: s["sc"]["members"][0]["rng"] != "chacha", 16 if q else 200, prop="C14")
+    # stratified: every kind of single-input difference (none, context, a promise, a value, the seed, the RNG stream) x
+    # seeded/unseeded x every fault model is represented
+    def kind_of(s):
+        a, b = s["sc"]["members"]
+        diff = [k for k in ("label", "proms", "vals", "seed", "rvar") if a[k] != b[k]]
+        return (diff[0] if diff else "identical", a["seed"] != 0, a["rng"], a["m"])
+    allh, _ = stages.pick_scenarios("hedge", tier, seed, lambda s: s["sc"]["members"][0]["rng"] != "chacha", 100000, prop="C14")
+    import random as _r
+    rng_ = _r.Random(seed)
+    strata = {}
+    for s_ in allh:
+        strata.setdefault(kind_of(s_), []).append(s_)
+    sc = [rng_.choice(v) for k, v in sorted(strata.items()) if (not q) or k[2] in ("zero", "p2")]
+    if not q:
+        sc += rng_.sample(allh, min(len(allh), 150))
     res.append(stages.trace_stage("C14", "hedged-pairs", sc, seed, module="TraceProve", consts={"Strict": "FALSE", "CheckArith": "TRUE", "CrossFresh": "TRUE"}, calls="prove"))
     # rekey-with-witness and rebuild-after-absorption on every generator, in bulk (token mode)
     sc2, _ = stages.pick_scenarios("complete", tier, seed, lambda s: honest(s) and nm_of(s) <= 128, 120 if q else 1200, prop="C14")
